@@ -3,6 +3,7 @@ from .inv_base import InvProp
 from ..prng import Rng
 from .. import geninv as GI
 from .. import core
+from .. import genv as G
 from .c01 import inv, cls
 
 PATS = [None, [".*"], ["^missing"], ["gone$"], ["^gone$"], ["one"], ["^x", "^missing\\.one$"], [], ["^zzz"]]
@@ -20,6 +21,13 @@ for pats in (["^service\\."], ["^\\.", "^other\\."], [".*"], ["dep$"]):
     for flag in (True, False):
         CLAUSES.append(inv({"classes/base.yml": cls("base", dep_class=".dep"), "classes/service/foo.yml": cls("service.foo", ["${dep_class}"]),
                             "nodes/n.yml": cls("n", ["base", "service.foo"])}, ignore_class_notfound=flag, patterns=pats))
+# the missing class's name is an existing DIRECTORY below the classes root (no init.yml in it): missing like any other
+for flag in (False, True):
+    for pats in ([".*"], ["^app$"], ["^other"], None):
+        kw = {"patterns": pats} if pats is not None else {}
+        CLAUSES.append(inv({"classes/app/other.yml": cls("app.other"), "classes/app/sub/x.yml": cls("app.sub.x"), "classes/a.yml": cls("a", ["app"]),
+                            "nodes/n.yml": cls("n", ["a", "app.other"]), "nodes/m.yml": cls("m", ["app.other", "app", "app.nope"]),
+                            "nodes/o.yml": cls("o", ["app.sub"])}, ignore_class_notfound=flag, **kw))
 # an existing class whose name matches the pattern is never skipped
 CLAUSES.append(inv({"classes/missing/one.yml": cls("missing.one"), "nodes/n.yml": cls("n", ["missing.one"])},
                    ignore_class_notfound=True, patterns=["^missing"]))
@@ -78,6 +86,13 @@ class C16(InvProp):
                 cfg["patterns"] = p
             c = GI.gen_inventory(r, n_classes=r.range(1, 5), shape=r.choice(["tree", "dag", "chain"]), n_nodes=r.range(1, 2),
                                  missing=2, nested=r.chance(1, 3), relative=r.choice([0, 40]), cfg=cfg)
+            if i % 5 == 2:
+                # the missing names exist as directories (with unrelated classes inside, no init.yml)
+                have = {f["path"] for f in c["files"]}
+                for pth, nm in (("classes/gone/leaf.yml", "gone.leaf"), ("classes/missing/one/leaf.yml", "missing.one.leaf"), ("classes/missing_two/leaf.yaml", "missing_two.leaf")):
+                    if pth not in have and r.chance(2, 3):
+                        c["files"].append({"path": pth, "content": {"classes": [], "parameters": G.enc({"leaf": nm})}})
+                c["fam"] = "missing_is_directory"
             if i % 3 == 0:
                 # missing class named through a reference that resolves to a relative spelling
                 cfg2 = dict(cfg)
